@@ -23,7 +23,7 @@ FLOORS = {'quick': {'ray-status': 1500, 'ray-params': 500, 'is_left': 1500, 'wn_
                     'voxel-cover': 500, 'find_ctrlpts': 300},
           'thorough': {'ray-status': 15000, 'wn_poly': 50000, 'hull': 3000, 'voxel-fill': 15000}}
 MANDATORY_TAGS = ['ray:cross2d', 'ray:cross3d', 'ray:parallel', 'ray:coincident', 'ray:skew', 'poly:star', 'poly:orthogonal',
-                  'poly:cw', 'poly:ccw', 'hull:collinear', 'vox:surface', 'vox:volume', 'vox:cubes']
+                  'poly:cw', 'poly:ccw', 'hull:collinear', 'vox:surface', 'vox:volume', 'vox:cubes', 'find:unnormalized']
 TECHNIQUE = ("runtime monitoring: exact-arithmetic oracles (orientation, crossing parity, definitional hull test, exact line "
              "intersection, point-in-box) on every predicate / query call of a constructed-class workload")
 LEVEL_TEXT = ("Each call is decided by rational arithmetic on integer-grid inputs; wn_poly is checked exhaustively over the "
@@ -294,9 +294,10 @@ def check_find(case, ctx):
     from geomdl import operations
     rng = random.Random(case['seed'])
     pdim = rng.choice([1, 2])
-    sd = G.rand_shape(rng, pdim, rational=False, maxextra=4)
+    sd = G.rand_shape(rng, pdim, rational=rng.random() < 0.3 and pdim == 1, maxextra=4, normalize=rng.random() < 0.5)
     o = G.build(sd)
     S = G.defn_of(o)
+    ctx.tag('find:normalized' if sd['normalize_kv'] else 'find:unnormalized')
     for tags, prm in G.param_tuples(rng, o, 6):
         act = S.active(prm)
         spans = S.spans(prm)
@@ -305,7 +306,7 @@ def check_find(case, ctx):
             got = [list(x) for x in operations.find_ctrlpts(o, prm[0])]
         else:
             got = [list(x) for row in operations.find_ctrlpts(o, prm[0], prm[1]) for x in row]
-        exp = [[float(c) for c in S.net[t]] for t in act]
+        exp = [[float(c) for c in (S.cart(t) if (S.rational and pdim == 1) else S.net[t])] for t in act]
         ok = len(got) == len(exp) and all(all(abs(a - b) <= 1e-12 * max(1.0, abs(b)) for a, b in zip(g, e)) for g, e in zip(got, exp))
         ctx.check(ok, 'find_ctrlpts', 'find_ctrlpts%r does not return control points span-p..span' % (prm,), what='find_ctrlpts')
         # the returned set contains every point whose basis function is non-zero at the parameter
